@@ -500,8 +500,8 @@ static void runCase(std::ostream &o, const std::string &id, const Program &p, Rn
 		bool postFailed = false;
 		for (int pass = 0; pass < 2; pass++) {
 			if (pass == 1) {
-				// postprocess() asserts on a multiplexer whose selector is a constant beyond its inputs (an *executed* dynamic index out of range
-				// with a constant index); the driver accepts that only if the sequential interpreter rejects every valuation as out of range
+				// an exception thrown by postprocess() is reported as such (`postcrash`); the driver counts it as an observation (OBS), not as a C05
+				// verdict (known cause: a dynamic index that the optimiser specialises to a constant beyond the multiplexer's inputs)
 				try { design.postprocess(); }
 				catch (const std::exception &e) { std::string w = e.what(); o << "postcrash " << w.substr(0, w.find('\n')) << "\n"; postFailed = true; break; }
 			}
